@@ -1341,3 +1341,7 @@ TABLE["C18"] += [
     N("matrix-writer-with-compound-step",
       (H, "  for (int j=0;j<n;j++) for (int i=0;i<m;i++,data++) *data = A(i,j);", "  for (int j=0;j<n;j+=1) for (int i=0;i<m;i+=1,data++) *data = A(i,j);")),
 ]
+TABLE["C17"] += [
+    B("hex-escape-pattern-misses-a-digit", {"Q1"},
+      (PW, "re.sub(r'\\\\(x[0-9a-f]{2}|.)'", "re.sub(r'\\\\(x[1-9a-f]{2}|.)'")),
+]
